@@ -337,6 +337,8 @@ def run(chk):
     _markevent_rule(chk, prog)
     _regdir_rule(chk, prog)
     _unregister_rule(chk, prog)
+    _timeoutarm_rule(chk, prog)
+    _chunkmode_rule(chk, prog)
 
 
 def _solewaiter_rule(chk, prog):
@@ -745,3 +747,79 @@ def _unregister_rule(chk, prog):
             chk.violation(rule, "ev.c", "janet_stream_close_impl", "no-table-removal", closes[0].loc,
                           "closing a stream leaves its entry in janet_vm.streams")
     chk.floor(rule, 1)
+
+
+STARTERS = ("janet_ev_read", "janet_ev_readchunk", "janet_ev_recv", "janet_ev_recvchunk", "janet_ev_recvfrom",
+            "janet_ev_write_buffer", "janet_ev_write_string", "janet_ev_send_buffer", "janet_ev_send_string",
+            "janet_ev_sendto_buffer", "janet_ev_sendto_string", "janet_sched_accept", "net_sched_connect")
+
+
+def _timeoutarm_rule(chk, prog):
+    """The stream functions take an optional timeout.  Every branch that starts the operation has to arm it first
+    (unless it is infinite): the starter never returns, so a branch that forgets suspends the fiber for as long as
+    the peer stays silent, whatever timeout the caller gave."""
+    rule = "C16-TIMEOUTARM"
+    chk.rule(rule, "a stream function that was given a timeout arms it on every path that starts the operation (or the timeout is infinite on that path)")
+    n = 0
+    for tun in ("ev.c", "net.c"):
+        for fn in prog.tus[tun].funcs.values():
+            tos = [x.name for x in fn.nodes if x.k == "vardecl" and x.kids and (x.t or "") == "double" and
+                   any(y.k == "call" and y.callee == "janet_optnumber" for y in x.kids[0].walk())]
+            starts = [c for c in fn.nodes if c.k == "call" and c.callee in STARTERS]
+            if not tos or not starts or not fn.calls("janet_addtimeout", "janet_addtimeout_nil"):
+                continue
+            to = tos[0]
+            chk.analysed(fn)
+
+            def transfer(st, x):
+                if x.k == "call" and x.callee in ("janet_addtimeout", "janet_addtimeout_nil"):
+                    return st | {"armed"}
+                return st
+
+            def edge(st, blk, succ, cond, truth, to=to):
+                c = flow.compare_of(cond, truth)
+                if c is None or c[2] is None:
+                    return st
+                l, op, r = strip_casts(c[0]), c[1], strip_casts(c[2])
+                if is_ref(l, to) and op == "==" and ("INFINITY" in r.macro_names() or "inf" in r.text().lower() or "HUGE" in r.text()):
+                    return st | {"inf"}
+                return st
+            IN, OUT, T = flow.forward_paths(fn, frozenset(), transfer, edge)
+            for x, S in flow.states_at(fn, IN, T):
+                if x in starts:
+                    n += 1
+                    chk.instance(rule)
+                    if S and all(("armed" in ps or "inf" in ps) for ps in S):
+                        chk.ok(rule, "%s: `%s` with the timeout armed" % (fn.name, x.text()[:40]))
+                    else:
+                        chk.violation(rule, tun, fn.name, "unarmed:" + x.callee, x.loc,
+                                      "`%s` starts the operation on a path that did not arm the caller's timeout `%s`: the call then "
+                                      "waits for as long as the peer stays silent" % (x.text()[:50], to))
+    chk.floor(rule, 10, n)
+
+
+def _chunkmode_rule(chk, prog):
+    """ev/chunk and net/chunk promise exactly n bytes unless the stream ends.  That is the job of the chunk variants of
+    the read starters (they keep reading until the count is reached); the plain variants return after the first
+    successful read, however short."""
+    rule = "C16-CHUNKMODE"
+    chk.rule(rule, "the chunk functions start their read with a chunk-mode starter")
+    n = 0
+    for tun in ("ev.c", "net.c"):
+        for fn in prog.tus[tun].funcs.values():
+            if "chunk" not in fn.name or not fn.is_cfun_sig():
+                continue
+            starts = [c for c in fn.nodes if c.k == "call" and c.callee in STARTERS]
+            if not starts:
+                continue
+            chk.analysed(fn)
+            for c in starts:
+                n += 1
+                chk.instance(rule)
+                if c.callee.endswith("chunk"):
+                    chk.ok(rule, "%s: %s" % (fn.name, c.callee))
+                else:
+                    chk.violation(rule, tun, fn.name, "plain-read:" + c.callee, c.loc,
+                                  "%s starts its read with %s, which completes after the first successful read: when the bytes arrive in "
+                                  "more than one piece the chunk comes back short and the rest is given to the next read" % (fn.name, c.callee))
+    chk.floor(rule, 2, n)
